@@ -274,8 +274,29 @@ func genC11Doc(t *rapid.T) (historyCase, string) {
 		}
 		b.WriteByte(']')
 		shape = "flush-boundary"
+		if rapid.Bool().Draw(t, "gap") {
+			// delete a run of elements so that the NOP run crosses the 65536-tag boundary of the serializer's tag buffer
+			at := (65536 * (1 + rapid.IntRange(0, 1).Draw(t, "bk"))) - 2 + rapid.IntRange(-5, 5).Draw(t, "gd")
+			ln := rapid.IntRange(1, 40).Draw(t, "glen")
+			if rapid.IntRange(0, 3).Draw(t, "biggap") == 0 {
+				ln = rapid.IntRange(1000, 70000).Draw(t, "gbig")
+			}
+			if at < 0 {
+				at = 0
+			}
+			if at+ln <= n {
+				del := make([]bool, n)
+				for i := at; i < at+ln; i++ {
+					del[i] = true
+				}
+				return historyCase{Doc: b.Bytes(), Copy: rapid.Bool().Draw(t, "copy"), Ops: []editOp{{Kind: "DelArr", Path: []int{0}, Nav: 1, UseFn: true, Del: del}}}, "flush-boundary-gap"
+			}
+		}
 	default: // long strings
 		n := rapid.IntRange(60000, 140000).Draw(t, "slen")
+		if rapid.IntRange(0, 5).Draw(t, "mib") == 0 {
+			n = rapid.IntRange(1<<20+1, 1<<20+200000).Draw(t, "slenbig") // beyond 1 MiB
+		}
 		b.WriteString(`{"k":"` + strings.Repeat("L", n) + `","e":"","k2":"` + strings.Repeat("é", n/4) + `"}`)
 		shape = "long-strings"
 	}
